@@ -83,6 +83,29 @@ theorem intermediate_alloc_le (s : Bytes) (a : Nat) (h : a ∈ (readIntermediate
 theorem padded_alloc_le (s : Bytes) (a : Nat) (h : a ∈ (readPadded cfg s).allocs) : a ≤ 2 ^ 24 + 3 := by
   rw [readPadded_readerPart, cfg_is_spec] at h; exact (readPadded_safe s).2 a h
 
+/-- **Whole connection.**  However many times `Read` is called on one connection (every delivered
+frame is followed by another `Read` on the rest of the stream with the next seqno), no call panics
+and no call requests a buffer above the bound: the per-frame guarantee is not spent by earlier frames. -/
+theorem session_never_panics_and_alloc_le (crc : Bytes → Nat) (k : Kind) (fuel : Nat) (seq : Int) (s : Bytes) :
+    ∀ r ∈ readSession cfg crc k fuel seq s, r.out.isPanic = false ∧ ∀ a ∈ r.allocs, a ≤ 2 ^ 24 + 16 := by
+  induction fuel generalizing seq s with
+  | zero => intro r hr; simp [readSession] at hr
+  | succ n ih =>
+    intro r hr
+    simp only [readSession] at hr
+    rcases List.mem_cons.mp hr with h | h
+    · subst h; exact ⟨read_never_panics crc k seq s, fun a ha => read_alloc_le crc k seq s a ha⟩
+    · split at h
+      · exact ih _ _ r h
+      · simp at h
+
+/-- Non-vacuity: a two-frame intermediate stream followed by a bad length prefix is three `Read`s —
+two frames, then a plain error. -/
+example : (readSession cfg (fun _ => 0) .intermediate 5 0
+      [8, 0, 0, 0, 1, 2, 3, 4, 5, 6, 7, 8, 8, 0, 0, 0, 8, 7, 6, 5, 4, 3, 2, 1, 0, 0, 0, 0]).map (·.out)
+    = [.ok [1, 2, 3, 4, 5, 6, 7, 8] [8, 0, 0, 0, 8, 7, 6, 5, 4, 3, 2, 1, 0, 0, 0, 0],
+       .ok [8, 7, 6, 5, 4, 3, 2, 1] [0, 0, 0, 0], .err (.badLen 0)] := by decide
+
 /-! ### The pinned tree (before the `fix:` commit) violated the property (defect D6) -/
 
 /-- Full protocol, length prefix 1: `b.Expand(n - 4)` → `makeslice: len out of range`. -/
